@@ -576,7 +576,7 @@ inline bool plan_effect(Model const& M, ModelTraits const& T, Op const& op, Effe
 			if(op.kind == O_VASSIGN_VIEW && (op.var < 0 || op.var > 6)) return false;
 			if(op.kind == O_VASSIGN_VIEW && (op.var == 2 || op.var == 4 || op.var == 6) && !T.tracked && !T.trivial) return false;
 			if(op.kind == O_VASSIGN_VIEW && op.var == 6 && (op.cb.n != 0 || same_root || T.static_arrays)) return false;  // source is a whole moved array: std::move(b)()  // moved-from value of such elements is unspecified
-			if(op.kind == O_VSWAP && (op.var < 0 || op.var > 2)) return false;
+			if(op.kind == O_VSWAP && (op.var < 0 || op.var > 4)) return false;
 		}
 		bool const overlap = same_root && !disjoint(dv, sv);
 		if(overlap && !(op.ov == 1 && op.var == 0 && op.kind != O_VSWAP)) return false;
@@ -606,7 +606,7 @@ inline bool plan_effect(Model const& M, ModelTraits const& T, Op const& op, Effe
 				a.v[static_cast<std::size_t>(dv.off[i])]  = y;
 				b->v[static_cast<std::size_t>(sv.off[i])] = x;
 			}
-			var(op.var == 0 ? "member" : op.var == 1 ? "adl" : "adl-lvalues");
+			var(op.var == 0 ? "member" : op.var == 1 ? "adl" : op.var == 2 ? "adl-lvalues" : op.var == 3 ? "adl-rvalue-lvalue" : "adl-lvalue-rvalue");
 			return true;
 		}
 		if(overlap) {  // element by element in canonical order, reading what has already been written (the documented element-wise copy)
@@ -662,13 +662,16 @@ inline bool plan_effect(Model const& M, ModelTraits const& T, Op const& op, Effe
 			var(op.var == 0 ? "operator=" : "assign(first)");
 		}
 		if(op.kind == O_VASSIGN_IL && !il_shape_ok(dv.D, dv.n)) return false;
-		if(op.kind == O_VFILL && dv.D != 1) return false;
+		if(op.kind == O_VFILL) {
+			if(op.var < 0 || op.var > 3 || (op.var == 0 && dv.D != 1)) return false;
+			var(op.var == 0 ? "fill" : op.var == 1 ? "begin+n" : op.var == 2 ? "it+=n" : "elements[n]");
+		}
 		if(op.kind == O_EASSIGN_IL && dv.count() > 6) return false;
 		MArr& a        = tgt(0, op.da, op.a);
 		e.viewwrite[0] = true;
 		e.elems        = dv.count();
 		e.expect_no_alloc = e.expect_base_unchanged = true;
-		for(std::size_t i = 0; i < dv.off.size(); ++i) a.v[static_cast<std::size_t>(dv.off[i])] = op.kind == O_VFILL ? op.v : op.v + static_cast<i64>(i);
+		for(std::size_t i = 0; i < dv.off.size(); ++i) a.v[static_cast<std::size_t>(dv.off[i])] = op.kind == O_VFILL && op.var == 0 ? op.v : op.v + static_cast<i64>(i);
 		return true;
 	}
 	case O_ELEM_WRITE: {
